@@ -446,6 +446,14 @@ class StmtMixin:
         c = self.path.choose(2)
         if c == 0:
             self.path.assume(i < n)
+            if isinstance(it, VStr):
+                # make the prefix that includes the current character available to fold lemmas
+                seen = set()
+                for fspec, x2, _e in list(self.path.fold_slices):
+                    if x2.get_id() == it.t.get_id() and fspec.name not in seen:
+                        seen.add(fspec.name)
+                        self.path.fold_slices.append((fspec, it.t, i + 1))
+                self.path.prefix_slices.setdefault(it.t.get_id(), []).append((it.t, i + 1))
             self.bind_target(st.target, elem(i), env, st)
             try:
                 self.exec_block(st.body, env)
@@ -761,3 +769,43 @@ def _record_input(path, name, v):
         path.inputs[name] = v.t
     elif isinstance(v, VStrJoin):
         path.inputs[name + ".joined"] = v.joined
+
+
+def verify_spec_lemmas(registry) -> FunctionResult:
+    """One-step closure obligations of the absorbing-predicate lemmas declared in /verif/specs."""
+    from . import engine as E
+    from .evaluator import Evaluator
+    from .spec import LEMMAS, SPECS
+
+    c = Contract(target="specs::lemmas", params={}, name="spec-lemmas", props=[])
+    res = FunctionResult(c)
+    ctx = E.Ctx(c, registry)
+    for lem in LEMMAS:
+        fspec = SPECS[lem.fold]
+        path = E.Path(ctx, E.Oracle([]), 1)
+        n = len(fspec.sorts)
+        st = []
+        for i, k in enumerate(fspec.sorts):
+            if k.startswith("seq:"):
+                srt = z3.SeqSort(ty.kind_sort(k[4:]))
+            else:
+                srt = ty.kind_sort(k)
+            st.append(path.fresh(fspec.params[i], srt))
+        ch = path.fresh("c", z3.StringSort())
+        path.assume(z3.Length(ch) == 1, check=False)
+        ev = Evaluator(ctx, path, pure=True)
+
+        def pred(terms):
+            env = E.Env(module=None)
+            env.py_globals = fspec.globals
+            for i, pname in enumerate(fspec.params[:-1]):
+                env.vars[pname] = E.wrap_kind(fspec.sorts[i], terms[i])
+            return ev.truth(ev.ev(ast.parse(lem.pred, mode="eval").body, env))
+
+        p0 = pred(st)
+        st2 = ctx.fold_step(path, fspec, st, ch)
+        p1 = pred(st2)
+        ctx.oblige(path, "spec-lemma", lem.name, z3.Implies(p0, p1))
+    res.obligations = ctx.obligations
+    res.paths = len(LEMMAS)
+    return res
